@@ -1059,6 +1059,9 @@ class Interp:
         if t in (ast.FloorDiv, ast.Mod, ast.Div) and is_sym(b) and sym.kind(b) in ("int", "bool") and self._single_cellvar(b) is not None:
             if self.decide_cmp("==", b, 0):
                 raise Raised(ExcVal("ZeroDivisionError"))
+        if t in (ast.LShift, ast.RShift) and is_sym(b) and sym.kind(b) in ("int", "bool") and self._single_cellvar(b) is not None:
+            if self.decide_cmp("<", b, 0) is True:
+                raise Raised(ExcVal("ValueError", args=("negative shift count",)))
         if t not in BINOPS:
             if t is ast.Div:
                 if is_sym(a) or is_sym(b):
